@@ -283,3 +283,131 @@ Definition w_mixed : list action :=
    PushBad [w_other]; Push [w_stream_metric] true false; End 0 true true; Push [w_stream; w_other] true true].
 Example w_mixed_ok : List.length (acked (run init w_mixed)) = 4%nat /\ all_indexed_typed (run init w_mixed) = true.
 Proof. vm_compute. split; reflexivity. Qed.
+
+(* ------------------------------------------------------------------ where an inserted row comes from
+   Every series row ever inserted was announced by a stream of the history that has the row's fingerprint, an
+   entry on the row's day and an entry of the row's type. (The row's labels text is encodeLabels of that stream's
+   labels - checked on the code by the history correspondence -, so with label_document_roundtrip and a
+   fingerprint that tells the history's label sets apart the row found for an acknowledged sample carries the
+   sample's own label set.) *)
+Definition from_stream (s : stream) (x : row) : Prop :=
+  exists d t, In d (days_of (s_entries s)) /\ In t (types_of (s_entries s)) /\ x = (d, s_fp s, tcode t).
+
+Definition streams_of_action (a : action) : list stream :=
+  match a with Push ss _ _ | PushBad ss | Begin ss => ss | _ => [] end.
+Definition all_streams (h : list action) : list stream := flat_map streams_of_action h.
+
+Lemma announce_type_rows d fp acc t x :
+  In x (snd (announce_type d fp acc t)) -> In x (snd acc) \/ x = (d, fp, tcode t).
+Proof.
+  destruct acc as [c r]. unfold announce_type. destruct (mem_row (d, fp, tcode t) c); cbn [snd]; [now left|].
+  intros H. apply in_app_or in H. destruct H as [H|[<-|[]]]; [now left|now right].
+Qed.
+
+Lemma announce_rows fp : forall tps acc d x,
+  In x (snd (announce fp tps acc d)) -> In x (snd acc) \/ exists t, In t tps /\ x = (d, fp, tcode t).
+Proof.
+  unfold announce. induction tps as [|t tps IH]; intros acc d x H; cbn [fold_left] in H; [now left|].
+  destruct (IH _ _ _ H) as [H1|[t' [Ht' ->]]].
+  - destruct (announce_type_rows _ _ _ _ _ H1) as [H2| ->]; [now left|right; exists t; split; [now left|reflexivity]].
+  - right. exists t'. split; [now right|reflexivity].
+Qed.
+
+Lemma on_entries_rows s acc x : In x (snd (on_entries acc s)) -> In x (snd acc) \/ from_stream s x.
+Proof.
+  unfold on_entries.
+  assert (G : forall days acc,
+            In x (snd (fold_left (announce (s_fp s) (types_of (s_entries s))) days acc)) ->
+            In x (snd acc) \/ exists d t, In d days /\ In t (types_of (s_entries s)) /\ x = (d, s_fp s, tcode t)).
+  { induction days as [|d days IH]; intros a H; cbn [fold_left] in H; [now left|].
+    destruct (IH _ H) as [H1|[d' [t [Hd [Ht ->]]]]].
+    - destruct (announce_rows _ _ _ _ _ H1) as [H2|[t [Ht ->]]]; [now left|].
+      right. exists d, t. split; [now left|]. split; [assumption|reflexivity].
+    - right. exists d', t. split; [now right|]. split; [assumption|reflexivity]. }
+  intros H. destruct (G _ _ H) as [H1|[d [t [Hd [Ht ->]]]]]; [now left|].
+  right. exists d, t. split; [assumption|]. split; [assumption|reflexivity].
+Qed.
+
+Lemma parse_rows_origin c ss x : In x (snd (parse c ss)) -> exists s, In s ss /\ from_stream s x.
+Proof.
+  unfold parse.
+  assert (G : forall ss acc, In x (snd (fold_left on_entries ss acc)) ->
+              In x (snd acc) \/ exists s, In s ss /\ from_stream s x).
+  { induction ss0 as [|s ss0 IH]; intros acc H; cbn [fold_left] in H; [now left|].
+    destruct (IH _ H) as [H1|[s' [Hs' Hf]]].
+    - destruct (on_entries_rows _ _ _ H1) as [H2|H2]; [now left|right; exists s; split; [now left|assumption]].
+    - right. exists s'. split; [now right|assumption]. }
+  intros H. destruct (G _ _ H) as [[]|H']. exact H'.
+Qed.
+
+(* rows inserted and rows carried by requests in flight all stem from the streams seen so far *)
+Definition origin_inv (S : list stream) (st : state) : Prop :=
+  (forall x, In x (ts_rows st) -> exists s, In s S /\ from_stream s x) /\
+  (forall f x, In f (pending st) -> In x (fst f) -> exists s, In s S /\ from_stream s x).
+
+Lemma origin_mono S S' st : incl S S' -> origin_inv S st -> origin_inv S' st.
+Proof.
+  intros Hi [H1 H2]. split.
+  - intros x Hx. destruct (H1 x Hx) as [s [Hs Hf]]. exists s. split; [now apply Hi|assumption].
+  - intros f x Hf Hx. destruct (H2 f x Hf Hx) as [s [Hs Hfs]]. exists s. split; [now apply Hi|assumption].
+Qed.
+
+Lemma finish_origin S st f ts_ok spl_ok pend :
+  origin_inv S st -> (forall x, In x (fst f) -> exists s, In s S /\ from_stream s x) -> incl pend (pending st) ->
+  origin_inv S (fst (finish st f ts_ok spl_ok pend)).
+Proof.
+  intros [H1 H2] Hf Hp. destruct f as [rows spl]. unfold finish. cbn [fst]. split; cbn [ts_rows pending].
+  - intros x Hx. destruct ts_ok; [|now apply H1]. apply in_app_or in Hx. destruct Hx as [Hx|Hx]; [now apply Hf|now apply H1].
+  - intros g x Hg Hx. apply (H2 g x); [now apply Hp|assumption].
+Qed.
+
+Lemma step_origin S st a : origin_inv S st -> origin_inv (S ++ streams_of_action a) (fst (step st a)).
+Proof.
+  intros Hinv. assert (Hinv' : origin_inv (S ++ streams_of_action a) st) by (apply (origin_mono S); [apply incl_appl, incl_refl|assumption]).
+  destruct a as [ss ts_ok spl_ok|ss|ss|k ts_ok spl_ok|k|]; cbn [step streams_of_action] in *.
+  - assert (Hf : forall x, In x (fst (begin_req st ss)) -> exists s, In s (S ++ ss) /\ from_stream s x).
+    { intros x Hx. unfold begin_req in Hx. cbn [fst] in Hx. destruct (parse_rows_origin _ _ _ Hx) as [s [Hs Hfs]].
+      exists s. split; [apply in_or_app; now right|assumption]. }
+    pose proof (finish_origin _ st (begin_req st ss) ts_ok spl_ok (pending st) Hinv' Hf (incl_refl _)) as H.
+    destruct (finish st (begin_req st ss) ts_ok spl_ok (pending st)) as [st' ack]. exact H.
+  - exact Hinv'.
+  - destruct Hinv' as [H1 H2]. cbn [fst]. split; cbn [ts_rows pending]; [exact H1|].
+    intros f x Hf Hx. apply in_app_or in Hf. destruct Hf as [Hf|[<-|[]]]; [now apply (H2 f x)|].
+    unfold begin_req in Hx. cbn [fst] in Hx. destruct (parse_rows_origin _ _ _ Hx) as [s [Hs Hfs]].
+    exists s. split; [apply in_or_app; now right|assumption].
+  - destruct (nth_error (pending st) k) as [f|] eqn:En; [|exact Hinv'].
+    assert (Hf : forall x, In x (fst f) -> exists s, In s (S ++ []) /\ from_stream s x).
+    { intros x Hx. destruct Hinv' as [_ H2]. apply (H2 f x); [eapply nth_error_In; eassumption|assumption]. }
+    pose proof (finish_origin _ st f ts_ok spl_ok (remove_nth k (pending st)) Hinv' Hf (fun x Hx => remove_nth_In x k _ Hx)) as H.
+    destruct (finish st f ts_ok spl_ok (remove_nth k (pending st))) as [st' ack]. exact H.
+  - destruct (nth_error (pending st) k) as [f|] eqn:En; [|exact Hinv'].
+    destruct Hinv' as [H1 H2]. cbn [fst]. split; cbn [ts_rows pending]; [exact H1|].
+    intros g x Hg Hx. apply (H2 g x); [eapply remove_nth_In; eassumption|assumption].
+  - destruct Hinv' as [H1 H2]. cbn [fst]. split; cbn [ts_rows pending]; assumption.
+Qed.
+
+Lemma run_origin : forall h S st, origin_inv S st -> origin_inv (S ++ all_streams h) (run st h).
+Proof.
+  induction h as [|a h IH]; intros S st Hinv; cbn [run all_streams flat_map].
+  - now rewrite app_nil_r.
+  - fold (all_streams h). rewrite app_assoc. apply IH. now apply step_origin.
+Qed.
+
+Lemma inserted_rows_have_origin h x :
+  In x (ts_rows (run init h)) -> exists s, In s (all_streams h) /\ from_stream s x.
+Proof.
+  intros Hx. assert (H0 : origin_inv [] init) by (split; [intros ? []|intros ? ? []]).
+  destruct (run_origin h [] init H0) as [H1 _]. cbn [app] in H1. now apply H1.
+Qed.
+
+(* both directions together: an acknowledged sample finds a row, and that row was written for a stream with the
+   sample's fingerprint *)
+Lemma acked_sample_row_and_origin h fp d t :
+  In (fp, d, t) (acked (run init h)) ->
+  In (d, fp, t) (ts_rows (run init h)) /\ exists s, In s (all_streams h) /\ s_fp s = fp /\ from_stream s (d, fp, t).
+Proof.
+  intros Hin. destruct (run_inv h init inv_init) as [_ [HJ _]]. pose proof (HJ _ _ _ Hin) as Hrow.
+  split; [assumption|]. destruct (inserted_rows_have_origin h _ Hrow) as [s [Hs Hf]].
+  exists s. split; [assumption|]. split; [|assumption].
+  destruct Hf as [d' [t' [_ [_ E]]]]. now inversion E.
+Qed.
